@@ -2075,8 +2075,40 @@ fn import_outside(bytes: &[u8]) -> ImportObs {
     }
     r
 }
-fn case_import(bytes: &[u8], what: &str, tags: Vec<String>, valid_len: usize) -> Case {
-    let o = import_outside(bytes);
+/// the same observation made in this process: only for byte strings without a 32/64-bit length
+/// marker (0xfc, 0xfd), which cannot announce more than 65535 elements
+fn import_inside(bytes: &[u8]) -> ImportObs {
+    let obs = import_obs(bytes);
+    let (kind, built) = match &obs {
+        CopyObs::Ok(_, l, _, _) => ('O', (l.nodes.len(), l.edges.len())),
+        CopyObs::Err(_) => ('E', (0, 0)),
+        CopyObs::Panic(_) => ('P', (0, 0)),
+        CopyObs::Abort(_) => ('A', (0, 0)),
+    };
+    let dec = snap_decode(bytes);
+    let dt = match &dec {
+        Some((s, n)) => format!("(Some ({}, ({})%nat))", snap_term(s), n),
+        None => "None".into(),
+    };
+    let (decoded, version, consumed, max_id, named) = match &dec {
+        Some((sn, n)) => {
+            let mut ids: Vec<u64> = sn.nodes.iter().map(|n| n.id.as_u64()).collect();
+            ids.sort();
+            ids.dedup();
+            let mut eids: Vec<u64> = sn.edges.iter().map(|e| e.id.as_u64()).collect();
+            eids.sort();
+            eids.dedup();
+            let mx = sn.nodes.iter().any(|n| n.id.as_u64() == u64::MAX) || sn.edges.iter().any(|e| e.id.as_u64() == u64::MAX);
+            (true, sn.version as u64, *n, mx, (ids.len(), eids.len()))
+        }
+        None => (false, 0, 0, false, (0, 0)),
+    };
+    ImportObs { term: copy_term(&obs), short: copy_short(&obs), dt, kind, decoded, version, consumed, max_id, built, named }
+}
+fn case_import(bytes: &[u8], what: &str, mut tags: Vec<String>, valid_len: usize) -> Case {
+    let outside = bytes.iter().any(|b| *b == 0xfc || *b == 0xfd);
+    tags.push(if outside { "import:child-process".into() } else { "import:in-process".to_string() });
+    let o = if outside { import_outside(bytes) } else { import_inside(bytes) };
     let mut c = Case {
         kind: "snap_bytes".into(),
         input: format!("{} ({} bytes) = {:02x?}", what, bytes.len(), &bytes[..bytes.len().min(48)]),
@@ -2139,7 +2171,7 @@ fn cases_snap_bytes(r: &mut Rng, out: &mut Out, b: &[u8], thorough: bool) {
         out.emit(&case_import(&b[..n], &format!("truncation to {}", n), vec!["bytes:truncated".into()], b.len()));
     }
     out.emit(&case_import(b, "valid snapshot", vec!["bytes:valid".into()], b.len()));
-    let nflips = if thorough && b.len() <= 400 { b.len() * 8 } else { 96 };
+    let nflips = if thorough && b.len() <= 200 { b.len() * 8 } else if thorough { 600 } else { 96 };
     for k in 0..nflips {
         let (pos, bit) = if nflips == b.len() * 8 { (k / 8, (k % 8) as u32) } else { (r.below(b.len() as u64) as usize, r.below(8) as u32) };
         out.emit(&case_import(&flip(b, pos, bit), &format!("flip bit {} of byte {}", bit, pos), vec!["bytes:bitflip".into()], b.len()));
@@ -2402,7 +2434,7 @@ fn main() {
                 ops.extend(gen_session(&mut r, &mut g, al, &mut tags));
                 let (c, b) = case_snap(&mut sc, &ops, tags);
                 out.emit(&c);
-                if b.len() > 30 && b.len() < 260 && kept.len() < (if thorough { 6 } else { 2 }) && i % 7 == 3 {
+                if b.len() > 30 && b.len() < 260 && kept.len() < (if thorough { 4 } else { 2 }) && i % 7 == 3 {
                     kept.push(b);
                 }
             }
